@@ -15,4 +15,7 @@ def util_ulen (truth : Term → Bool) (wcwidth_wcswidth_string : Int) : Out :=
   let length' : Int := wcwidth_wcswidth_string;
   Out.ret [] (Term.int (if decide (length' ≥ (0 : Int)) then length' else (0 : Int)))
 
+/-- the decorators of dataiter/util.py: ulen, outermost first -/
+def util_ulen_decorators : List String := []
+
 end DI.Gen
